@@ -1267,6 +1267,15 @@ func readers(s *simrt.Sim, top *asyncClient, sameCall bool, trace *[]string) []*
 	}
 	// make sure both interfaces are present, and nest one root into another sometimes (shared sub-tree)
 	roots = append(roots, at.NewList(1, "two", 3.5, roots[0]), at.NewObject("a", 1, "b", roots[0]))
+	// an equal but distinct copy of the first root (two-container operations such as Equals go all the way only on such pairs)
+	var twinA, twinB any
+	switch x := roots[0].(type) {
+	case at.List:
+		twinA, twinB = x, x.Clone()
+	case at.Object:
+		twinA, twinB = x, x.Clone()
+	}
+	roots = append(roots, twinB)
 	lists, objs := collect(roots...)
 	// receivers are drawn from the roots half of the time (the roots include the wide containers), otherwise from anywhere
 	var rootLists []at.List
@@ -1334,7 +1343,7 @@ func readers(s *simrt.Sim, top *asyncClient, sameCall bool, trace *[]string) []*
 		reps := 1 + s.Draw("same-reps", 3)
 		// identical calls, or the same method on the same receiver with independently drawn arguments
 		// (a hidden write keyed by the argument only collides when the arguments differ)
-		argMode := s.Draw("same-args", 3)
+		argMode := s.Draw("same-args", 4)
 		op2 := ops[s.Draw("same-op2", len(ops))]
 		switch argMode {
 		case 1:
@@ -1344,9 +1353,26 @@ func readers(s *simrt.Sim, top *asyncClient, sameCall bool, trace *[]string) []*
 			top.ops["probe:readers-two-methods-one-receiver"]++
 			reps++
 		}
+		if argMode == 3 {
+			// mirrored: half of the clients call op(a, b), the other half op(b, a) (two-container operations that take both
+			// containers' locks, or walk both, meet each other in opposite order)
+			top.ops["probe:readers-mirrored-operands"]++
+			_, aIsList := twinA.(at.List)
+			if aIsList == onList && s.Draw("mirrored-equal-pair", 2) == 0 {
+				proto.c, proto.other = twinA, twinB
+			}
+		}
 		for i := range plans {
 			for r := 0; r < reps; r++ {
 				cp := *proto
+				if argMode == 3 {
+					if (r+i)%2 == 1 && cp.other != nil && cp.other != cp.c {
+						cp.c, cp.other = cp.other, cp.c
+					}
+					cp.seq = r + 1
+					plans[i] = append(plans[i], &cp)
+					continue
+				}
 				if argMode != 0 {
 					cp = *genCall(s, lists, objs, onList, pick)
 					cp.op = op
